@@ -42,6 +42,9 @@ Proof.
   apply (map_nth_ext f (fun i => G (nth_error r i)) l 0). intros i k Hk. cbn. apply H. exact Hk.
 Qed.
 
+Lemma Forall2_same_length {A B} (R : A -> B -> Prop) l l' : Forall2 R l l' -> length l = length l'.
+Proof. induction 1; [reflexivity|cbn; f_equal; assumption]. Qed.
+
 Lemma nth_error_map_Some {A B} (f : A -> B) l i a : nth_error l i = Some a -> nth_error (map f l) i = Some (f a).
 Proof. intros H. apply map_nth_error. exact H. Qed.
 
@@ -220,4 +223,198 @@ Proof.
     unfold phys_doc. erewrite lookup_combine; [reflexivity|exact Hnd|exact Hk|].
     assert (Hi : i < length (t_header T)) by (apply nth_error_Some; unfold text, key in *; congruence).
     rewrite map_length. unfold text, key in *. lia.
+Qed.
+
+(* ================================================================ Part C: fixed-width text *)
+(* ---- cells, padding ---- *)
+Lemma pad_length w (c : text) : length c <= w -> length (pad w c) = w.
+Proof. intros H. unfold pad. rewrite app_length, repeat_length. lia. Qed.
+
+Lemma pad_exact w (c : text) : length c = w -> pad w c = c.
+Proof. intros H. unfold pad. replace (w - length c) with 0 by lia. apply app_nil_r. Qed.
+
+Definition len_is (w : nat) (c : list N) : Prop := length c = w.
+
+Lemma pad_row_lengths : forall (ws : list nat) (r : list text),
+  length r = length ws ->
+  forallb (fun p => Nat.leb (length (snd p)) (fst p)) (combine ws r) = true ->
+  Forall2 len_is ws (pad_row ws r).
+Proof.
+  induction ws as [|w ws IH]; intros [|c r] Hlen H; try discriminate Hlen; [constructor|].
+  cbn [combine forallb fst snd] in H. apply andb_prop in H as [Hc Hr]. apply Nat.leb_le in Hc.
+  unfold pad_row. cbn [combine map fst snd]. constructor.
+  - apply pad_length. exact Hc.
+  - apply IH; [cbn in Hlen; lia|exact Hr].
+Qed.
+
+Lemma fits_inv widths T : fits widths T = true ->
+  length widths = length (t_header T)
+  /\ (forall r, In r (t_rows T) -> length r = length widths
+        /\ forallb (fun p => Nat.leb (length (snd p)) (fst p)) (combine widths r) = true).
+Proof.
+  unfold fits. intros H. apply andb_prop in H as [H Hrows]. apply andb_prop in H as [Hlen _].
+  apply Nat.eqb_eq in Hlen. split; [exact Hlen|].
+  intros r Hr. rewrite forallb_forall in Hrows. specialize (Hrows r Hr).
+  apply andb_prop in Hrows as [H1 H2]. apply Nat.eqb_eq in H1. split; assumption.
+Qed.
+
+Lemma fits_positive widths T : fits widths T = true -> Forall (fun w => 1 <= w) widths.
+Proof.
+  unfold fits. intros H. apply andb_prop in H as [H _]. apply andb_prop in H as [_ H].
+  rewrite forallb_forall in H. apply Forall_forall. intros w Hw. apply Nat.leb_le. apply H. exact Hw.
+Qed.
+
+(* cells that fill their columns exactly: the padded table is the table *)
+Lemma pad_row_exact : forall (ws : list nat) (r : list text),
+  length r = length ws ->
+  forallb (fun p => Nat.eqb (length (snd p)) (fst p)) (combine ws r) = true ->
+  pad_row ws r = r.
+Proof.
+  induction ws as [|w ws IH]; intros [|c r] Hlen H; try discriminate Hlen; [reflexivity|].
+  cbn [combine forallb fst snd] in H. apply andb_prop in H as [Hc Hr]. apply Nat.eqb_eq in Hc.
+  unfold pad_row. cbn [combine map fst snd]. f_equal; [apply pad_exact; exact Hc|].
+  apply IH; [cbn in Hlen; lia|exact Hr].
+Qed.
+
+Lemma pad_table_exact widths T : fits_exactly widths T = true -> pad_table widths T = T.
+Proof.
+  unfold fits_exactly. intros H. apply andb_prop in H as [Hfit Hex].
+  destruct (fits_inv widths T Hfit) as [_ Hrows].
+  destruct T as [hs rows]. unfold pad_table. cbn [t_header t_rows] in *. f_equal.
+  rewrite <- (map_id rows) at 2. apply map_ext_in. intros r Hr.
+  rewrite forallb_forall in Hex. apply pad_row_exact; [apply (Hrows r Hr)|apply Hex; exact Hr].
+Qed.
+
+(* ---- offsets: field i lies after the fields before it ---- *)
+Lemma field_at {A} : forall (hs : list key) (ws : list nat) (cells : list (list A)) (pre tail : list A) i k,
+  NoDup hs -> length ws = length hs -> Forall2 (fun w c => length c = w) ws cells ->
+  nth_error hs i = Some k ->
+  exists w c, nth_error cells i = Some c /\ length c = w /\
+    exists a b, lookup (locate (combine hs ws) (length pre)) k = Some (a, b)
+      /\ b - a = w /\ slice a b (pre ++ concat cells ++ tail) = c.
+Proof.
+  induction hs as [|h hs IH]; intros ws cells pre tail i k Hnd Hlen HF Hk; [destruct i; discriminate|].
+  destruct ws as [|w ws]; [discriminate Hlen|].
+  inversion HF as [|w0 c ws0 cells' Hc HF']; subst.
+  inversion Hnd as [|x l Hnotin Hnd']; subst.
+  destruct i as [|i]; cbn [nth_error] in Hk.
+  - injection Hk as ->. exists (length c), c. split; [reflexivity|]. split; [reflexivity|].
+    exists (length pre), (length pre + length c). cbn [combine locate lookup]. rewrite key_eqb_refl.
+    split; [reflexivity|]. split; [lia|].
+    unfold slice. rewrite skipn_exact. replace (length pre + length c - length pre) with (length c) by lia.
+    cbn [concat]. rewrite <- app_assoc. apply firstn_exact.
+  - assert (Hne : key_eqb h k = false).
+    { apply key_eqb_neq. intros ->. apply Hnotin. eapply nth_error_In. exact Hk. }
+    destruct (IH ws cells' (pre ++ c) tail i k Hnd' (eq_add_S _ _ Hlen) HF' Hk)
+      as (w' & c' & Hc' & Hl' & a & b & Hlook & Hba & Hslice).
+    exists w', c'. split; [exact Hc'|]. split; [exact Hl'|]. exists a, b.
+    cbn [combine locate lookup]. rewrite Hne. rewrite app_length in Hlook. split; [exact Hlook|].
+    split; [exact Hba|]. cbn [concat]. rewrite <- Hslice. f_equal. rewrite <- !app_assoc. reflexivity.
+Qed.
+
+Lemma field_ok {A} (hs : list key) (ws : list nat) (cells : list (list A)) (tail : list A) i k :
+  NoDup hs -> length ws = length hs -> Forall2 (fun w c => length c = w) ws cells ->
+  nth_error hs i = Some k ->
+  exists c, nth_error cells i = Some c /\ field (layout_of hs ws) k (concat cells ++ tail) = Ok (length c, c).
+Proof.
+  intros Hnd Hlen HF Hk.
+  destruct (field_at hs ws cells [] tail i k Hnd Hlen HF Hk) as (w & c & Hc & Hl & a & b & Hlook & Hba & Hslice).
+  exists c. split; [exact Hc|]. unfold field, layout_of. cbn [length] in Hlook. rewrite Hlook.
+  cbn [app] in Hslice. rewrite Hslice, Hba, Hl. reflexivity.
+Qed.
+
+Lemma text_row_ok (hs : list key) (ws : list nat) (cells : list text) (tail : list N) :
+  NoDup hs -> length ws = length hs -> Forall2 len_is ws cells ->
+  map (fun k => text_value (layout_of hs ws) k (concat cells ++ tail)) hs
+  = map (fun c => Ok (Some (Txt c))) cells.
+Proof.
+  intros Hnd Hlen HF.
+  apply (by_index_map (fun k => text_value (layout_of hs ws) k (concat cells ++ tail))
+           (fun o => match o with Some c => Ok (Some (Txt c)) | None => Err KeyError end) hs cells).
+  - transitivity (length ws); [symmetry; exact (Forall2_same_length _ _ _ HF)|exact Hlen].
+  - intros i k Hk. destruct (field_ok hs ws cells tail i k Hnd Hlen HF Hk) as (c & Hc & Hf).
+    unfold text_value. rewrite Hf. cbn [bind snd]. unfold text, key in *. rewrite Hc. reflexivity.
+Qed.
+
+(* ---- lines ---- *)
+Definition safe (s : list N) : bool := forallb (fun x => negb (N.eqb x nl) && negb (N.eqb x cr)) s.
+
+Lemma safe_app a b : safe (a ++ b) = safe a && safe b.
+Proof. apply forallb_app. Qed.
+
+Lemma safe_repeat_blank n : safe (repeat blank n) = true.
+Proof. induction n as [|n IH]; [reflexivity|]. cbn [repeat]. unfold safe in *. cbn [forallb]. rewrite IH. reflexivity. Qed.
+
+Lemma safe_concat (l : list (list N)) : Forall (fun c => safe c = true) l -> safe (concat l) = true.
+Proof.
+  induction 1 as [|c l Hc Hl IH]; [reflexivity|]. cbn [concat]. rewrite safe_app, Hc, IH. reflexivity.
+Qed.
+
+Lemma safe_pad_row : forall (ws : list nat) (r : list text),
+  forallb line_safe_text r = true -> Forall (fun c => safe c = true) (pad_row ws r).
+Proof.
+  induction ws as [|w ws IH]; intros [|c r] H; try (unfold pad_row; cbn; constructor).
+  - cbn [forallb] in H. apply andb_prop in H as [Hc Hr].
+    unfold pad. rewrite safe_app, safe_repeat_blank, andb_true_r. exact Hc.
+  - cbn [forallb] in H. apply andb_prop in H as [Hc Hr]. apply (IH r Hr).
+Qed.
+
+Lemma safe_no_lf s : safe s = true -> forallb (fun c => negb (c =? 10)%N) s = true.
+Proof.
+  unfold safe. rewrite !forallb_forall. intros H x Hx. specialize (H x Hx). apply andb_prop in H as [H _]. exact H.
+Qed.
+
+Lemma universal_newlines_id s : forallb (fun c => negb (c =? 13)%N) s = true -> universal_newlines s = s.
+Proof.
+  induction s as [|c s IH]; intros H; [reflexivity|].
+  cbn [forallb] in H. apply andb_prop in H as [Hc Hs]. apply negb_true_iff in Hc.
+  cbn [universal_newlines]. rewrite Hc. f_equal. apply IH. exact Hs.
+Qed.
+
+Lemma lines_from_line body : forall cur rest,
+  forallb (fun c => negb (c =? 10)%N) body = true ->
+  lines_from cur (body ++ 10%N :: rest) = (rev cur ++ body ++ [10%N]) :: lines_from [] rest.
+Proof.
+  induction body as [|c body IH]; intros cur rest H.
+  - cbn [app lines_from N.eqb Pos.eqb rev]. reflexivity.
+  - cbn [forallb] in H. apply andb_prop in H as [Hc Hb]. apply negb_true_iff in Hc.
+    cbn [app lines_from]. rewrite Hc. rewrite (IH (c :: cur) rest Hb). cbn [rev].
+    rewrite <- !app_assoc. reflexivity.
+Qed.
+
+Lemma text_lines_rows (ls : list (list N)) : Forall (fun l => safe l = true) ls ->
+  text_lines (concat (map (fun l => l ++ [10%N]) ls)) = map (fun l => l ++ [10%N]) ls.
+Proof.
+  intros H. unfold text_lines. rewrite universal_newlines_id.
+  - induction H as [|l ls Hl Hls IH]; [reflexivity|].
+    cbn [map concat]. rewrite <- app_assoc. cbn [app].
+    rewrite (lines_from_line l [] _ (safe_no_lf l Hl)). cbn [rev app]. f_equal. exact IH.
+  - induction H as [|l ls Hl Hls IH]; [reflexivity|].
+    cbn [map concat]. rewrite !forallb_app, IH. cbn [forallb N.eqb Pos.eqb negb andb].
+    rewrite !andb_true_r. unfold safe in Hl. rewrite forallb_forall in Hl. rewrite forallb_forall.
+    intros x Hx. specialize (Hl x Hx). apply andb_prop in Hl as [_ Hl]. exact Hl.
+Qed.
+
+Lemma rows_preset_some {S I} (s : S) (src : list I) : rows_preset (Some s) src = Ok src.
+Proof. destruct src; reflexivity. Qed.
+
+Lemma fixed_text_ok T widths :
+  NoDup (t_header T) -> fits widths T = true -> line_safe T = true ->
+  read_fixed (write_fixed_text T widths) (layout_of (t_header T) widths) (t_header T)
+  = expected [([], pad_table widths T)].
+Proof.
+  intros Hnd Hfit Hsafe. destruct (fits_inv widths T Hfit) as [Hlen Hrows].
+  unfold read_fixed, expected, expected_rows. cbn [map fst snd pad_table t_rows].
+  f_equal. f_equal.
+  unfold write_fixed_text, write_fixed_row. Show.
+  replace (map (fun r => concat (pad_row widths r) ++ [nl]) (t_rows T))
+    with (map (fun l => l ++ [10%N]) (map (fun r => concat (pad_row widths r)) (t_rows T)))
+    by (rewrite map_map; reflexivity).
+  rewrite text_lines_rows.
+  - rewrite rows_preset_some. cbn [bind]. f_equal. rewrite !map_map. apply map_ext_in. intros r Hr.
+    destruct (Hrows r Hr) as [Hr1 Hr2].
+    apply text_row_ok; [exact Hnd|exact Hlen|apply pad_row_lengths; assumption].
+  - apply Forall_forall. intros l Hl. apply in_map_iff in Hl as (r & <- & Hr).
+    apply safe_concat. apply safe_pad_row.
+    unfold line_safe in Hsafe. rewrite forallb_forall in Hsafe. apply Hsafe. exact Hr.
 Qed.
